@@ -1,5 +1,5 @@
 """C14 - multi-file mode partitions types by crate and imports cross-crate references.
-Proof: Props/C14.v (31 theorems: partition = find_crate_name of the path, every file holds exactly the declarations of
+Proof: Props/C14.v (37 theorems: partition = find_crate_name of the path, every file holds exactly the declarations of
 its crate's sources, union over the files = the single-file run; imports sound unconditionally - an import names a
 TYPE of its module, never a const -, complete on dom_C14 = named references (serde-renamed targets included: the import
 names the generated name) and references covered by a glob import,
